@@ -1,0 +1,27 @@
+// +build verif
+
+package joinserver
+
+// This file is only compiled with the "verif" build tag. It gives
+// verification tooling a callback at the boundaries of the join / rejoin
+// task pipelines.
+
+// VerifYield, when set, is called before every task of the join-request and
+// rejoin-request pipelines with the index of the task.
+var VerifYield func(stage int)
+
+func init() {
+	wrap := func(tasks []func(*context) error) {
+		for i := range tasks {
+			stage, task := i, tasks[i]
+			tasks[i] = func(ctx *context) error {
+				if VerifYield != nil {
+					VerifYield(stage)
+				}
+				return task(ctx)
+			}
+		}
+	}
+	wrap(joinTasks)
+	wrap(rejoinTasks)
+}
